@@ -128,12 +128,8 @@ func verifC07DropKeep(isKeep bool, valLen int) {
 		// selected(n): named, or the matcher is on n and matches its value
 		sel := listed[n]
 		if n == mLabel {
-			if listed[n] {
-				// LogQL: a label that is both named and matched — the
-				// property only fixes the union; stated in DESIGN as assumed away
-				continue
-			}
-			sel = verifRefLabelMatch(mOp, vals[i], mVal, mRe)
+			// a label that is both named and matched: the items select on their own (union)
+			sel = vsymOr(sel, verifRefLabelMatch(mOp, vals[i], mVal, mRe))
 		}
 		got, ok := verifGet(set, n)
 		if !has[i] {
@@ -156,3 +152,62 @@ func VerifHarness_C07_Drop_1() { verifC07DropKeep(false, 1) }
 func VerifHarness_C07_Keep_1() { verifC07DropKeep(true, 1) }
 func VerifHarness_C07_Drop_2() { verifC07DropKeep(false, 2) }
 func VerifHarness_C07_Keep_2() { verifC07DropKeep(true, 2) }
+
+// C07-O2b: several drop/keep items on ONE label: the label named and matched,
+// or matched by two matchers.  Every item of the list selects labels on its
+// own, so the label is selected when it is named or when any matcher on it
+// matches its value.
+func verifC07DropKeepSameLabel(isKeep bool) {
+	set := newLabelSet()
+	val := vsymString("val", 1)
+	set.Set("b", pcommon.NewValueStr(val))
+	set.Set("other", pcommon.NewValueStr("o"))
+	named := vsymBool("named")
+	var list []logql.Label
+	if named {
+		list = append(list, "b")
+	}
+	nm := 1 + vsymChoice("matchers", 2)
+	if !named {
+		nm = 2
+	}
+	sel := named
+	all := true
+	var matchers []logql.LabelMatcher
+	for k := 0; k < nm; k++ {
+		op := []logql.BinOp{logql.OpEq, logql.OpNotEq, logql.OpRe, logql.OpNotRe}[vsymChoice("mop", 4)]
+		mval := vsymString("mval", 1)
+		re := vsymChoice("mre", 3)
+		matchers = append(matchers, logql.LabelMatcher{Label: "b", Op: op, Value: mval, Re: regexp.MustCompile("^(?:" + verifTableRe[re] + ")$")})
+		hit := verifRefLabelMatch(op, val, mval, re)
+		sel = vsymOr(sel, hit)
+		all = vsymAnd(all, hit)
+	}
+	var proc Processor
+	var err error
+	if isKeep {
+		proc, err = buildKeepLabels(&logql.KeepLabelsExpr{Labels: list, Matchers: matchers})
+	} else {
+		proc, err = buildDropLabels(&logql.DropLabelsExpr{Labels: list, Matchers: matchers})
+	}
+	vsymAssert(err == nil, "drop/keep stage builds")
+	out, keep := proc.Process(1, "l", set)
+	vsymAssert(keep && out == "l", "drop/keep never drop or change the line")
+	_, ok := verifGet(set, "b")
+	survives := vsymNot(sel)
+	conjSurvives := vsymNot(all)
+	if isKeep {
+		survives, conjSurvives = sel, all
+	}
+	if ok != survives && ok == conjSurvives {
+		vsymFinding("F26", true, "drop/keep treat several items on one label as a conjunction: `drop b, b=\"x\"` keeps b=\"y\" although b is named, and `drop b=\"x\", b=\"y\"` drops nothing (each item of the list selects labels on its own)")
+		return
+	}
+	vsymAssert(ok == survives, "the label is dropped (drop) / kept (keep) iff it is named or some matcher on it matches")
+	_, okOther := verifGet(set, "other")
+	vsymAssert(okOther == !isKeep, "labels no item mentions are kept by drop and removed by keep")
+	vsymReach("C07_dropkeep_same_label")
+}
+
+func VerifHarness_C07_DropSameLabel() { verifC07DropKeepSameLabel(false) }
+func VerifHarness_C07_KeepSameLabel() { verifC07DropKeepSameLabel(true) }
